@@ -742,7 +742,8 @@ pub fn run_prop<P: Prop>(p: P, opts: RunOpts) -> i32 {
     let mut regress_failure: Option<(P::Case, Failure, PathBuf)> = None;
     {
         let dir = verif_dir().join("regressions").join(p.id());
-        let skip_regress = matches!(child, Some((k, _)) if k != 0);
+        // VERIF_NO_REGRESSIONS=1 disables the tier (used by the sensitivity tools so that they measure the search itself)
+        let skip_regress = matches!(child, Some((k, _)) if k != 0) || std::env::var("VERIF_NO_REGRESSIONS").is_ok();
         let mut files: Vec<PathBuf> = if skip_regress { Vec::new() } else { std::fs::read_dir(&dir).map(|d| d.flatten().map(|e| e.path()).collect()).unwrap_or_default() };
         files.sort();
         for f in files {
